@@ -230,7 +230,7 @@ func workerMain(o *options) int {
 				continue
 			}
 			rf := &ReplayFile{Property: p.ID, Seed: o.seed, Run: i, Tier: o.tier, Build: buildName(), Alloc: o.alloc,
-				Tape: r.Tape, Violation: r.Viol, OrigLen: tapeLen(r.Tape)}
+				Tape: r.Tape, Violation: r.Viol, OrigLen: tapeLen(r.Tape), ShareOffset: o.offset, ShareStride: o.stride}
 			if !o.noShrink {
 				best, steps := Shrink(p, o.seed, i, o.tier, r.Tape, r.Viol.Key(), budget)
 				rf.Tape, rf.Shrink, rf.Minimised = best, steps, true
@@ -257,9 +257,24 @@ func workerMain(o *options) int {
 				fin = reproduce(rf.Tape)
 			}
 			if fin == nil {
-				fmt.Fprintf(out, "X run %d: violation %s did not reproduce from its own tape in-process\n", i, r.Viol.Key())
+				// The oracle saw a violation that its own tape does not show again in this
+				// process: it depends on library state carried over from earlier runs (every run
+				// resets the simulator and flushes the pools, but cannot reset package-level state
+				// of the code under test). Report it; the parent verifies by re-executing this
+				// worker's share of run indices in a fresh process.
+				rf.Tape, rf.Minimised, rf.NeedsShare = r.Tape, false, true
+				rf.ShareOffset, rf.ShareStride = o.offset, o.stride
+				rf.TapeLen = tapeLen(r.Tape)
+				rf.Violation = r.Viol
+				rf.EventHash = fmt.Sprintf("%016x", r.Hash)
+				rf.Note = "did not reproduce from its own tape in the same process: depends on library state that survives across runs; replay re-executes the worker's share (run indices share_offset, +share_stride, ... up to run) in a fresh process"
+				path, err := WriteReplay(o.replayDir, rf)
+				if err != nil {
+					return fatal2("cannot write replay: %v", err)
+				}
+				fmt.Fprintf(out, "V %s\n", path)
 				out.Flush()
-				return 2
+				break
 			}
 			rf.Tape = fin.Tape
 			rf.TapeLen = tapeLen(fin.Tape)
@@ -328,6 +343,18 @@ func replayMain(o *options) int {
 			}
 			return 2
 		}
+		return 0
+	}
+	if rf.NeedsShare && rf.Tape != nil {
+		os.MkdirAll(o.tmpDir, 0o755)
+		self, _ := os.Executable()
+		fmt.Printf("replay %s: %s; re-executing runs %d,%d,... up to %d of seed %d in a fresh process\n", o.replay, rf.Note, rf.ShareOffset, rf.ShareOffset+rf.ShareStride, rf.Run, rf.Seed)
+		if verifyShare(self, o, rf) {
+			fmt.Printf("violation: %s\n", rf.Violation.Error())
+			fmt.Printf("VIOLATION property=%s replay=%s\n", rf.Property, o.replay)
+			return 1
+		}
+		fmt.Printf("no violation of class %s at run %d on this tree\n", rf.Violation.Class, rf.Run)
 		return 0
 	}
 	if rf.Tape == nil {
@@ -539,6 +566,27 @@ func stderrSignature(s string) (class string, sig []string, funcs []string) {
 	return
 }
 
+// verifyShare re-executes a worker's share of run indices up to rf.Run in a fresh process and
+// reports whether the same class of violation shows at that run.
+func verifyShare(bin string, o *options, rf *ReplayFile) bool {
+	oo := *o
+	oo.prop, oo.tier, oo.seed, oo.alloc = rf.Property, rf.Tier, rf.Seed, rf.Alloc
+	oo.runs = rf.Run + 1
+	oo.replayDir = filepath.Join(o.tmpDir, fmt.Sprintf("share-%d-%d", os.Getpid(), rf.Run))
+	os.MkdirAll(oo.replayDir, 0o755)
+	defer os.RemoveAll(oo.replayDir)
+	oo.shrinkBudget = time.Second
+	for attempt := 0; attempt < 3; attempt++ {
+		r := launchWorker(bin, &oo, rf.Build == "race", rf.ShareOffset, rf.ShareStride, -1)
+		for _, p := range r.viols {
+			if got, err := ReadReplay(p); err == nil && got.Run == rf.Run && got.Violation != nil && got.Violation.Class == rf.Violation.Class {
+				return true
+			}
+		}
+	}
+	return false
+}
+
 // harnessFrames extracts the task-level harness functions of a race report.
 func harnessFrames(s string) (funcs []string) {
 	seen := map[string]bool{}
@@ -738,13 +786,29 @@ func parentMain(o *options) int {
 			return fatal2("cannot read %s: %v", path, err)
 		}
 		key := rf.Violation.Key()
-		if reported[key] {
+		if reported[key] || (rf.NeedsShare && reported[rf.Violation.Class+"@share"]) {
 			os.Remove(path)
 			continue
 		}
 		bin := self
 		if rf.Build == "race" {
 			bin = o.racebin
+		}
+		if rf.NeedsShare {
+			if !verifyShare(bin, o, rf) {
+				return fatal2("violation %s of run %d was seen once but neither its tape nor the worker's share reproduces it", key, rf.Run)
+			}
+			reported[rf.Violation.Class+"@share"] = true
+			if k := matchKnown(known, rf.Violation); k != nil {
+				fmt.Printf("KNOWN-FINDING: property=%s %s at %s: %s\n", o.prop, rf.Violation.Class, rf.Violation.Site, k.Description)
+				os.Remove(path)
+				continue
+			}
+			nViol++
+			fmt.Printf("violation: %s\n", rf.Violation.Error())
+			fmt.Printf("VIOLATION property=%s replay=%s\n", o.prop, path)
+			exit = 1
+			continue
 		}
 		var outb []byte
 		code := 0
@@ -759,7 +823,16 @@ func parentMain(o *options) int {
 			}
 		}
 		if code != 1 {
-			return fatal2("replay of %s in a fresh process did not reproduce the violation (exit %d): %s", path, code, tail(string(outb), 3))
+			// not reproducible from a clean process state: does it depend on library state
+			// carried over from the worker's earlier runs?
+			rf.NeedsShare = true
+			if rf.ShareStride == 0 || !verifyShare(bin, o, rf) {
+				return fatal2("replay of %s in a fresh process did not reproduce the violation (exit %d): %s", path, code, tail(string(outb), 3))
+			}
+			rf.Note = "reproduces only after the earlier runs of the same worker process (library state that survives across runs); replay re-executes the worker's share (run indices share_offset, +share_stride, ... up to run) in a fresh process"
+			if b, err := json.MarshalIndent(rf, "", " "); err == nil {
+				os.WriteFile(path, b, 0o644)
+			}
 		}
 		reported[key] = true
 		if k := matchKnown(known, rf.Violation); k != nil {
